@@ -36,17 +36,18 @@ import (
 // stub processors: the consensus decoders are tested, not the consensus.
 type stubGroupCreate struct{}
 
-func (stubGroupCreate) OnMessageCreateGroupPing(msg *model.CreateGroupPingMessage)                   {}
-func (stubGroupCreate) OnMessageCreateGroupPong(msg *model.CreateGroupPongMessage)                   {}
-func (stubGroupCreate) OnMessageParentGroupConsensus(msg *model.ParentGroupConsensusMessage)         {}
-func (stubGroupCreate) OnMessageParentGroupConsensusSign(msg *model.ParentGroupConsensusSignMessage) {}
-func (stubGroupCreate) OnMessageGroupInit(msg *model.GroupInitMessage)                               {}
-func (stubGroupCreate) OnMessageSharePiece(msg *model.SharePieceMessage)                             {}
-func (stubGroupCreate) OnMessageSignPK(msg *model.SignPubKeyMessage)                                 {}
-func (stubGroupCreate) OnMessageGroupInited(msg *model.GroupInitedMessage)                           {}
-func (stubGroupCreate) OnMessageSharePieceReq(msg *model.ReqSharePieceMessage)                       {}
-func (stubGroupCreate) OnMessageSharePieceResponse(msg *model.ResponseSharePieceMessage)             {}
-func (stubGroupCreate) OnMessageSignPKReq(msg *model.SignPubkeyReqMessage)                           {}
+func (stubGroupCreate) OnMessageCreateGroupPing(msg *model.CreateGroupPingMessage)           {}
+func (stubGroupCreate) OnMessageCreateGroupPong(msg *model.CreateGroupPongMessage)           {}
+func (stubGroupCreate) OnMessageParentGroupConsensus(msg *model.ParentGroupConsensusMessage) {}
+func (stubGroupCreate) OnMessageParentGroupConsensusSign(msg *model.ParentGroupConsensusSignMessage) {
+}
+func (stubGroupCreate) OnMessageGroupInit(msg *model.GroupInitMessage)                   {}
+func (stubGroupCreate) OnMessageSharePiece(msg *model.SharePieceMessage)                 {}
+func (stubGroupCreate) OnMessageSignPK(msg *model.SignPubKeyMessage)                     {}
+func (stubGroupCreate) OnMessageGroupInited(msg *model.GroupInitedMessage)               {}
+func (stubGroupCreate) OnMessageSharePieceReq(msg *model.ReqSharePieceMessage)           {}
+func (stubGroupCreate) OnMessageSharePieceResponse(msg *model.ResponseSharePieceMessage) {}
+func (stubGroupCreate) OnMessageSignPKReq(msg *model.SignPubkeyReqMessage)               {}
 
 type stubMining struct{}
 
@@ -116,9 +117,13 @@ func bootedParsers() []*parserDef {
 			syncEntry(notify.TopBlockInfo, func() proto.Message { return new(pb.ChainInfo) },
 				func(b []byte) notify.Message { return &notify.ChainInfoMessage{ChainInfo: b, Peer: "peer"} }, "unMarshalChainInfo"),
 			syncEntry(notify.BlockChainPieceReq, func() proto.Message { return new(pb.BlockChainPieceReq) },
-				func(b []byte) notify.Message { return &notify.BlockChainPieceReqMessage{BlockChainPieceReq: b, Peer: "peer"} }, "unMarshalBlockChainPieceReq"),
+				func(b []byte) notify.Message {
+					return &notify.BlockChainPieceReqMessage{BlockChainPieceReq: b, Peer: "peer"}
+				}, "unMarshalBlockChainPieceReq"),
 			syncEntry(notify.BlockChainPiece, func() proto.Message { return new(pb.BlockChainPiece) },
-				func(b []byte) notify.Message { return &notify.BlockChainPieceMessage{BlockChainPieceByte: b, Peer: "peer"} }, "unMarshalBlockChainPiece"),
+				func(b []byte) notify.Message {
+					return &notify.BlockChainPieceMessage{BlockChainPieceByte: b, Peer: "peer"}
+				}, "unMarshalBlockChainPiece"),
 			syncEntry(notify.BlockReq, func() proto.Message { return new(pb.BlockReq) },
 				func(b []byte) notify.Message { return &notify.BlockReqMessage{ReqInfoByte: b, Peer: "peer"} }, "unMarshalBlockSyncReq"),
 			syncEntry(notify.BlockResponse, func() proto.Message { return new(pb.BlockMsgResponse) },
@@ -265,7 +270,7 @@ func (e *engine) family(p *parserDef, m message, label string, nested map[string
 
 func (e *engine) hostileBooted() {
 	r := e.r
-	nMut, nRand := r.Pick(1500, 60000), r.Pick(1500, 60000)
+	nMut, nRand := r.Pick(1500, 200000), r.Pick(1500, 200000)
 	cs, ks := consSignMsg(), coreSignMsg()
 	csV, ksV := signVariants(cs), signVariants(ks)
 	hdrs, grps := hostileHeaders(), hostileGroups()
